@@ -102,6 +102,8 @@ def run_states(tier: str) -> dict[str, Any]:
     from aioesphomeapi import model
 
     pb = env.pb()
+    # an application may hold placeholder instances of any model class (base classes included) before the first state arrives
+    c14.instantiate_defaults(Result("C17", "exploration"))
     pairs = c14.build_pairs(model, pb)
     enum_pairing = {m: c14.ENUM_RENAMED.get(m, m) for m in vars(model) if isinstance(getattr(model, m), type)
                     and issubclass(getattr(model, m), model.APIIntEnum) and getattr(model, m) is not model.APIIntEnum}
